@@ -10,10 +10,18 @@ SCR="$(mktemp -d /var/tmp/nvseed.XXXXXX)"
 trap 'rm -rf "$SCR"' EXIT
 (cd /repo && tar --exclude=./_build --exclude=./.git -cf - .) | tar -xf - -C "$SCR"
 (cd "$SCR" && git init -q . && { git apply --whitespace=nowarn "$PATCH" 2>/dev/null || patch -p1 --fuzz=3 --no-backup-if-mismatch < "$PATCH" >/dev/null; }) || { echo "PATCH DOES NOT APPLY"; exit 2; }
-cd "$VERIF"
+# a private copy of the framework: a run against a changed tree regenerates coq/Gen/*.v, rebuilds
+# dependent .vo files and writes evidence/<id>.json — none of that may touch /verif, where other runs
+# against /repo may be in progress.  Only the build cache (keyed by tree hash) is shared.
+VCOPY="$SCR.verif"; mkdir -p "$VCOPY"
+trap 'rm -rf "$SCR" "$VCOPY"' EXIT
+rsync -a --exclude .git --exclude out --exclude .cache --exclude seeded "$VERIF/" "$VCOPY/"
+ln -s "$VERIF/.cache" "$VCOPY/.cache"
+cd "$VCOPY"
 for id in "$@"; do
   start=$(date +%s)
   out="$(NEVER_REPO="$SCR" VERIF_TIER=${VERIF_TIER:-quick} timeout 1500 bin/check "$id" --tier ${VERIF_TIER:-quick} 2>&1)"; rc=$?
+  mkdir -p "$VERIF/out/seedruns" && cp -r "$VCOPY/out/$id" "$VERIF/out/seedruns/$(basename "$PATCH" .diff)-$id-$$" 2>/dev/null || true
   echo "== $id rc=$rc wall=$(( $(date +%s) - start ))s"
   echo "$out" | grep -E "^(VIOLATION|KNOWN-FINDING|NOTE)" | cut -c1-400
 done
